@@ -84,6 +84,16 @@ ModExists(files, mp) ==
        /\ (Front(mp) = <<>> \/ HasFile(files, Front(mp), "mod"))
        /\ (HasFile(files, mp, "file") \/ HasFile(files, mp, "mod"))
 
+(* The module of name.roto is called `name` (the file stem) and the module   *)
+(* of name/mod.roto is called `name` (the whole directory name), whatever    *)
+(* characters the name contains.  A name that is not an identifier (it       *)
+(* contains a dot: a.bak/mod.roto, b.x.roto) is still that module's name: no *)
+(* path can mention it (a path is a sequence of identifiers, `pkg.a.bak.f`   *)
+(* means member bak of module a), and it is not the module `a` or `b`.       *)
+SplitName(n) == CASE n = "a.bak" -> <<"a", "bak">> [] n = "b.x" -> <<"b", "x">> [] OTHER -> <<n>>
+RECURSIVE Written(_)
+Written(mp) == IF mp = <<>> THEN <<>> ELSE SplitName(Head(mp)) \o Written(Tail(mp))   \* the path as a script would write it
+
 FileMods(files) == {Append(e.dir, e.name) : e \in files}
 Modules(files)  == {mp \in FileMods(files) \cup {<<>>} : ModExists(files, mp)}
 
